@@ -193,6 +193,10 @@ def analyze_accumulator_from_sample(
 
     values = eval_outputs.predict(x_sample)
 
+    # with a single output, predict returns the array itself, not a list
+    if not isinstance(values, list):
+      values = [values]
+
     acc_sizes = {}
 
     for name, value in zip(layer_names, values):
@@ -220,6 +224,10 @@ def analyze_accumulator_from_sample(
   # predict values for all inputs to quantized layers
 
   values = eval_inputs.predict(x_sample)
+
+  # with a single output, predict returns the array itself, not a list
+  if not isinstance(values, list):
+    values = [values]
 
   x_dict = {}
 
